@@ -27,7 +27,10 @@ type LoopSpec struct {
 	Decreases  *Clause
 }
 
+// SiteAssert with LetName != "" binds a contract-level name to the clause's value at that point
+// (e.g. to remember the result of a call for a later assertion).
 type SiteAssert struct {
+	LetName string
 	When    string // "before" | "after"
 	Pattern string // substring of the callee name as printed by SSA
 	Ordinal int    // 0 = every matching call
@@ -128,7 +131,7 @@ type Contracts struct {
 var clauseKeywords = map[string]bool{
 	"pred": true, "func": true, "prop": true, "requires": true, "ensures": true, "modifies": true,
 	"loop": true, "pure": true, "inline": true, "trusted": true, "assert": true, "assume": true, "after": true,
-	"devirtualize": true, "immutable": true, "guarded": true, "arith": true, "consumes": true, "implements": true, "let": true, "rely": true, "expect-obligations": true, "iface": true, "nobody": true, "ghostmap": true, "ghost": true,
+	"remember": true, "devirtualize": true, "immutable": true, "guarded": true, "arith": true, "consumes": true, "implements": true, "let": true, "rely": true, "expect-obligations": true, "iface": true, "nobody": true, "ghostmap": true, "ghost": true,
 }
 
 var tagRe = regexp.MustCompile(`^\[([^\]]*)\]\s*`)
@@ -494,6 +497,35 @@ func (c *Contracts) parseFile(path, pkgPath string) error {
 			default:
 				return fmt.Errorf("%s:%d: loop clause %q", path, r.line, f[1])
 			}
+		case "remember":
+			// remember after call <pattern>[#k]: name = expr
+			txt := strings.TrimSpace(r.text)
+			when := "before"
+			if strings.HasPrefix(txt, "after ") {
+				when = "after"
+				txt = strings.TrimSpace(strings.TrimPrefix(txt, "after"))
+			}
+			if !strings.HasPrefix(txt, "call ") {
+				return fmt.Errorf("%s:%d: malformed remember clause", path, r.line)
+			}
+			txt = strings.TrimSpace(strings.TrimPrefix(txt, "call"))
+			colon := strings.Index(txt, ": ")
+			eq := strings.Index(txt, "=")
+			if colon < 0 || eq < colon {
+				return fmt.Errorf("%s:%d: malformed remember clause (need 'call <pattern>: name = expr')", path, r.line)
+			}
+			pat := strings.TrimSpace(txt[:colon])
+			ord := 0
+			if h := strings.LastIndex(pat, "#"); h >= 0 {
+				ord, _ = strconv.Atoi(pat[h+1:])
+				pat = pat[:h]
+			}
+			name := strings.TrimSpace(txt[colon+2 : eq])
+			cl, err := mk(strings.TrimSpace(txt[eq+1:]), r.line)
+			if err != nil {
+				return err
+			}
+			cur.Asserts = append(cur.Asserts, &SiteAssert{When: when, Pattern: pat, Ordinal: ord, Clause: cl, LetName: name})
 		case "assert", "assume", "after":
 			// assert call <pattern>[#k]: expr     after call <pattern>[#k]: expr
 			txt := r.text
